@@ -169,7 +169,7 @@ func newWorld(dir string, cfg Config, rng *rand.Rand) (*World, error) {
 }
 
 func (w *World) openApp(first bool) error {
-	db, err := sql.Open("sqlite", "file:"+w.dbPath+"?_pragma=busy_timeout(2000)")
+	db, err := sql.Open("sqlite", "file:"+w.dbPath+"?_pragma=busy_timeout(150)")
 	if err != nil {
 		return err
 	}
@@ -991,6 +991,8 @@ func main() {
 	seed := fl.Int64("seed", 1, "PRNG seed")
 	mode := fl.String("mode", "c01", "c01 | c02 | c04")
 	only := fl.Int("only", -1, "run only the history with this index (replay)")
+	shardK := fl.Int("shard", 0, "run only histories with index % shards == shard")
+	shardN := fl.Int("shards", 1, "number of shards")
 	script := fl.String("script", "", "mode script: space-separated op tokens to run after OPEN (e.g. 'S CK-RESTART W ACK-TRUNCATE DDL SW')")
 	scriptCfg := fl.String("cfg", "4096,0,10,0,0,0", "mode script: ps,autovacuum,minCheckpointPageN,truncatePageN,checkpointIntervalNs,maxSyncWALBytes")
 	if err := fl.Parse(os.Args[1:]); err != nil {
@@ -1017,6 +1019,9 @@ func main() {
 	nontrivial := 0
 	for i := 0; i < *n; i++ {
 		if *only >= 0 && i != *only {
+			continue
+		}
+		if i%*shardN != *shardK {
 			continue
 		}
 		// every history has its own PRNG derived from (seed, index) so it replays alone
